@@ -41,7 +41,8 @@ Fixpoint ends_with_bslash (l : str) : bool :=
                     _is_comment_or_blank(text[endpos.lineno-2]))):
                 endpos = FilePos(endpos.lineno-1, 1)
    walk_back t lastl fuel L = the final endpos.lineno, None = IndexError from text[...]
-   or fuel exhausted (impossible for fuel >= L: every iteration decrements L and needs L-1 > lastl) *)
+   or fuel exhausted (impossible for fuel > L: every iteration decrements L and needs L-1 > lastl;
+   proved in SplitProofs.walk_total) *)
 Fixpoint walk_back (t : text) (lastl : nat) (fuel : nat) (L : nat) : option nat :=
   match fuel with
   | O => None
@@ -114,7 +115,7 @@ Definition node_endpos (t : text) (n : node) (next : pos) : option pos :=
   | None => None
   | Some e1 =>
       if colno e1 =? 1 then
-        match walk_back t lastl (lineno e1) (lineno e1) with
+        match walk_back t lastl (S (lineno e1)) (lineno e1) with
         | None => None
         | Some L => Some (mkPos L 1)
         end
@@ -255,6 +256,18 @@ Fixpoint ends_ok (t : text) (ns : list node) (es : list pos) : bool :=
   | _, _ => false
   end.
 
+(* grammar fact about the text before the first node (the whole text if there is none): only
+   comments and blanks *)
+Definition leading_ok (t : text) (ns : list node) : bool :=
+  match ns with
+  | [] => forallb is_comment_or_blank (lines t)
+  | n0 :: _ =>
+      match slice t (startpos t) (n_start n0) with
+      | Some s => forallb is_comment_or_blank (lines s)
+      | None => true
+      end
+  end.
+
 Definition code_pieces (ps : list piece) : list piece :=
   filter (fun p => match fst p with Some _ => true | None => false end) ps.
 
@@ -278,5 +291,6 @@ Arguments statements {K}.
 Arguments starts_increasing {K}.
 Arguments wf_nodes {K}.
 Arguments ends_ok {K}.
+Arguments leading_ok {K}.
 Arguments code_pieces {K}.
 Arguments piece_nodes {K}.
